@@ -32,6 +32,7 @@ class Contract:
     product: dict = field(default_factory=dict)          # relational (2-run) obligation: {"on": "self._verbose", "observe": [...]}
     rulefn_preserves: list = field(default_factory=list)  # ASSUMED of every uninterpreted rule-like call made by this function
     generator: bool = False                             # generator function: ensures may mention `yielded` (tokens yielded by this call)
+    requires_assumed: dict = field(default_factory=dict)  # ghost precondition -> why it is ASSUMED (not checked) at call sites; listed in evidence
     floor: int = 1                                      # vacuity guard: minimum number of obligations expected
 
 
